@@ -186,6 +186,55 @@ def run_gen_case(case, emit, tier, bud=None):
             emit({"v": "held", "b": bucket, "sample": {"script": script, "form": form, "rows": n, "perm": list(p), "cols_shuffled": colshuf}})
 
 
+def run_frame_case(rng, emit, tier):
+    """DataFrame inputs with the features a loader inspects row by row or column by column: a nullable Date column mixing missing,
+    date-only and timed values, a byte-order mark in front of one header (as read from a BOM-encoded CSV without utf-8-sig),
+    object / string dtypes; all row permutations x shuffled columns against the frame in its original order"""
+    import pandas as pd
+    from vf import eng
+    comps = [("Id_1", "Integer", "Identifier", False), ("Id_2", "String", "Identifier", False), ("Me_d", "Date", "Measure", True), ("Me_1", "Number", "Measure", True)]
+    st = eng.structures(eng.mkds("DS_1", comps))
+    pool = [None, "2020-01-15 10:30:00", "2020-01-16", "2021-03-01T08:00:00", None, "1999-12-31"]
+    n = 4
+    rows = [(i + 1, rng.choice(["a", "b"]) + str(i), pool[(i + rng.randrange(2)) % len(pool)] if i else rng.choice([None, "2020-01-15 10:30:00"]), rng.choice([1.5, None, -2.0])) for i in range(n)]
+    if not any(r[2] and len(r[2]) > 10 for r in rows):
+        rows[1] = rows[1][:2] + ("2020-01-15 10:30:00",) + rows[1][3:]
+    if all(r[2] is not None for r in rows):
+        rows[2] = rows[2][:2] + (None,) + rows[2][3:]
+    bom_col = rng.choice([None, "Id_1", "Me_1", "Id_2"])
+    script = rng.choice(["DS_r <- DS_1;", "DS_r <- DS_1[calc Me_2 := Me_d];", "DS_r <- DS_1[filter Id_1 > 0];"])
+
+    def frame(rs, order):
+        df = pd.DataFrame({c[0]: [r[j] for r in rs] for j, c in enumerate(comps)}, dtype=object)[order]
+        if bom_col:
+            df = df.rename(columns={bom_col: "﻿" + bom_col})
+        return df
+    names = [c[0] for c in comps]
+    base = eng.call(eng.run, script, st, {"DS_1": frame(rows, names)})
+    if base[0] == "exc":
+        emit({"v": "skip", "why": f"frame baseline rejected: {type(base[1]).__name__} {str(base[1])[:60]}"})
+        return
+    d0 = eng.result_digest(base[1])
+    perms = list(itertools.permutations(range(n)))[1:]
+    if tier == "quick":
+        rng.shuffle(perms)
+        perms = perms[:9]
+    for p in perms:
+        order = names[:]
+        rng.shuffle(order)
+        s_, r = eng.call(eng.run, script, st, {"DS_1": frame([rows[i] for i in p], order)})
+        b = f"gen:frame/df/bom={bom_col is not None}/rows={n}-all-perms"
+        case = {"frame": {"rows": [list(x) for x in rows], "perm": list(p), "order": order, "bom": bom_col, "script": script}}
+        if s_ == "exc":
+            emit({"v": "viol", "b": b, "mech": f"frame/permuted-input-rejected/{type(r).__name__}", "what": f"{script}: original frame accepted, rows {p} / columns {order} (BOM on {bom_col}) raised {type(r).__name__}: {str(r)[:140]}", "case": case})
+            continue
+        d = eng.digests_equal(eng.result_digest(r), d0)
+        if d:
+            emit({"v": "viol", "b": b, "mech": f"frame/result-depends-on-{'column' if list(p) == sorted(p) else 'row-or-column'}-order", "what": f"{script}: rows {p} / columns {order} (BOM on {bom_col}): {d}", "case": case})
+        else:
+            emit({"v": "held", "b": b, "sample": {"script": script, "perm": list(p), "columns": order, "bom": bom_col}})
+
+
 def run_sdmxcsv_case(rng, emit, tier):
     """SDMX-CSV style file (STRUCTURE / STRUCTURE_ID / ACTION columns, rows marked D are deletions): the result must not
     depend on where those columns sit nor on the row order"""
@@ -320,6 +369,7 @@ def run_shard(spec, emit):
             run_gen_case(case, emit, tier, bud)
     for _ in range(2 if tier == "quick" else 10):
         run_sdmxcsv_case(rng, emit, tier)
+        run_frame_case(rng, emit, tier)
     for c in rider.corpus_slice(spec, quick_fraction=8, tag="C33"):
         if not bud.ok():
             emit({"v": "inc", "why": "cut by wall-clock budget"})
